@@ -17,7 +17,7 @@ import time
 
 import numpy as np
 
-from vf.common import HELD, INCONCLUSIVE, VIOLATED, Run, case_hash, main_wrapper, run_pool, seed
+from vf.common import wall_budget, HELD, INCONCLUSIVE, VIOLATED, Run, case_hash, main_wrapper, run_pool, seed
 
 PID = "C14"
 EVENTS = ["lock_open", "src_tmp_open", "rename_src", "popen_cc", "popen_link", "marker_open"]
@@ -154,7 +154,7 @@ def main(tier, replay=None):
     if replay:
         cases = [json.load(open(replay))["replay"]["case"]]
     # histories use up to 16 processes each: run few at a time
-    results = run_pool("c14", cases, per_case_timeout=420, chunk=1, nproc=4, deadline=time.time() + (540 if tier == "quick" else 3300))
+    results = run_pool("c14", cases, per_case_timeout=420, chunk=1, nproc=4, deadline=time.time() + wall_budget(tier, 540, 3300))
     for r in results:
         run.add(r)
     run.extra["distinct_interleavings"] = len(run.coverage_sets.get("interleaving", ()))
